@@ -12,7 +12,10 @@ HINT = ("Earlier waves show that the hardest regressions to detect involve: stat
         "runs of long-lived objects; configuration/identifier coincidences; scale (many instances); boundary magnitudes "
         "(sizes, times, counts at 8/16/32-bit limits); re-entrancy from callbacks; two cooperating sites that each look "
         "fine alone; behaviour that differs only for one of several equivalent-looking API entry points; rarely used "
-        "entry points, classes and code paths named by (or implied by) the property text that ordinary use never reaches.")
+        "entry points, classes and code paths named by (or implied by) the property text that ordinary use never reaches; "
+        "several live instances (objects, connections, ports, threads, senders) that should be independent but come to share state; "
+        "configuration/setter calls between operations on a long-lived object; optional flags, alternative loaders and site-local data; "
+        "platform- or allocator-dependent behaviour (address order, fd numbers, hash-table growth).")
 for pid in sys.argv[2:]:
     p = props[pid]
     b = brief.replace('/tmp/atk_<ID>', '/tmp/%s_%s' % (prefix, pid)).replace('<ID>', pid)
